@@ -137,7 +137,20 @@ func genStringCmd(g *lsGen) {
 		}
 	case 29:
 		if g.timeOK {
-			switch r.Intn(3) {
+			switch r.Intn(5) {
+			case 3:
+				// options, and TTLs that are zero, negative or not numbers
+				a := bs("expire", k, pick(r, []string{"1", "3", "100", "0", "-1", "x", "", "9223372036854775807"}))
+				if r.Bool(0.8) {
+					a = append(a, B(pick(r, []string{"nx", "xx", "gt", "lt", "NX", "Gt", "bogus"})))
+				}
+				if r.Bool(0.1) {
+					a = append(a, B(pick(r, []string{"nx", "xx", "gt", "lt"})))
+				}
+				g.try(a)
+				g.try(bs("exists", k))
+			case 4:
+				g.try(bs("expire", k, pick(r, []string{"0", "-1"})))
 			case 0:
 				g.try(bs("expire", k, itoa(1+r.Intn(6))))
 			case 1:
